@@ -15,21 +15,24 @@ THEOREMS = [
     ("EG.props.C11", "C11_other_objects_untouched"),
     ("EG.props.C11", "C11_update_never_unavailable"),
     ("EG.props.C11", "C11_hot_update_no_restart"),
+    ("EG.props.C11", "C11_registry_bad_entry_frame"),
 ]
 _HOOKS = {"pkg/util/ratelimiter/zz_verif_c11_hook.go": "harness/pipeline/zz_verif_c11_hook_rl.go",
           "pkg/filters/proxy/zz_verif_c11_hook.go": "harness/pipeline/zz_verif_c11_hook_proxy.go"}
 HARNESSES = [
     dict(name="pipeline", pkg="pkg/object/pipeline", files=["harness/pipeline/zz_verif_c11_test.go"],
-         run="TestVerifC11Pipeline", groups=["rlf", "inh", "pipe"], timeout=600, share=0.5, extra_overlay=_HOOKS),
+         run="TestVerifC11Pipeline", groups=["rlf", "inh", "pipe"], timeout=600, share=0.45, extra_overlay=_HOOKS),
+    dict(name="registry", pkg="pkg/supervisor", files=["harness/supervisor/zz_verif_c11_test.go"],
+         run="TestVerifC11Registry", groups=["reg"], timeout=300, share=0.08),
     dict(name="tc", pkg="pkg/object/trafficcontroller", files=["harness/trafficcontroller/zz_verif_c11_test.go"],
          run="TestVerifC11TC", groups=["tc", "tcreal"], timeout=300, share=0.2),
     dict(name="mux", pkg="pkg/object/httpserver", files=["harness/httpserver/zz_verif_c11_test.go", "harness/httpserver/zz_verif_c11_cert_test.go"],
-         run="TestVerifC11Mux", groups=["sched", "conc", "restart"], timeout=900, share=0.3, race=True),
+         run="TestVerifC11Mux", groups=["sched", "conc", "restart"], timeout=900, share=0.27, race=True),
 ]
 GROUPS = {"rlf": "(check_rlf pinned)", "inh": "(check_inh pinned)", "pipe": "(check_pipe pinned)",
-          "tc": "(check_tc pinned)", "sched": "(check_sched pinned)", "conc": "(check_conc pinned)", "restart": "(check_restart pinned)", "tcreal": "(check_tcreal pinned)"}
+          "tc": "(check_tc pinned)", "sched": "(check_sched pinned)", "conc": "(check_conc pinned)", "restart": "(check_restart pinned)", "tcreal": "(check_tcreal pinned)", "reg": "(check_reg pinned)"}
 EXPLAIN = {"rlf": "explain_rlf pinned", "inh": "explain_inh", "pipe": "explain_pipe pinned",
-           "tc": "explain_tc", "sched": "explain_sched", "conc": "explain_conc", "restart": "explain_restart", "tcreal": "explain_tcreal"}
+           "tc": "explain_tc", "sched": "explain_sched", "conc": "explain_conc", "restart": "explain_restart", "tcreal": "explain_tcreal", "reg": "explain_reg"}
 CASES = {"quick": 900, "thorough": 6000}
 RULE = ("cases: rlf = RateLimiter filter Init/Inherit/Handle histories incl. requests on superseded generations; "
         "inh = the same for 13 further filter kinds with a never-inherited twin; pipe = Pipeline.Init/Inherit/Handle with "
@@ -41,7 +44,10 @@ RULE = ("cases: rlf = RateLimiter filter Init/Inherit/Handle histories incl. req
         "eight with a real keep-alive connection (http or https with a fixed self-signed key pair) on a loopback port held "
         "across the reload; plus: loaded spec still Equals a fresh parse of its YAML, and probe requests after the update "
         "are answered like a runtime that only ever had the new spec; tcreal = ApplyPipelineForSpec with real Pipeline "
-        "objects (explicit / generated flow, lifecycle-counting filters), fresh Spec parsed from YAML per call. non-trivial = case ran (spec accepted); class bits: rlf +1 inherit +2 limited "
+        "objects (explicit / generated flow, lifecycle-counting filters), fresh Spec parsed from YAML per call; reg = ObjectRegistry.applyConfig rounds with undecodable entries (unknown "
+        "kind / malformed YAML / invalid spec) next to healthy objects appearing, changing, disappearing, vs a twin "
+        "registry fed the rounds without them; rlf also records the policy each limiter OBJECT enforces vs a never-inherited "
+        "twin (specs with duplicate policy names). non-trivial = case ran (spec accepted); class bits: rlf +1 inherit +2 limited "
         "+4 superseded generation handled a matching request; inh +1 superseded handled +2 closed handled +4*kind; pipe +1 "
         "superseded handled +2 closes +4 inherits; tc +1 no-op apply +2 inherit +4 close; sched +1 served by a superseded "
         "generation +2 reload inside the request +4 status 200; conc +1 two generations' answers seen during reloads; "
@@ -101,11 +107,13 @@ def _enc_rlf(i, o):
     steps = o.get("steps") or []
     ops = []
     for op, st in zip(i["ops"], steps):
+        pols = L([L([Z(x) for x in row]) for row in st.get("pols") or []])
+        twin = L([L([Z(x) for x in row]) for row in st.get("twinPols") or []])
         if op["op"] == "init":
-            ops.append(C("RInit", Nat(op["spec"]), Z(op["dt"]), L([Z(x) for x in st.get("refs") or []])))
+            ops.append(C("RInit", Nat(op["spec"]), Z(op["dt"]), L([Z(x) for x in st.get("refs") or []]), pols, twin))
         elif op["op"] == "inherit":
             ops.append(C("RInherit", Nat(op["spec"]), Nat(op["gen"]), Z(op["dt"]), B(st["panic"]),
-                         L([Z(x) for x in st.get("refs") or []]), L([Z(x) for x in st.get("fromRefs") or []])))
+                         L([Z(x) for x in st.get("refs") or []]), L([Z(x) for x in st.get("fromRefs") or []]), pols, twin))
         else:
             ops.append(C("RHandle", Nat(op["gen"]), Z(op["dt"]), L([B(x) for x in st.get("matches") or []]), Z(st["code"])))
     bad = bool(o.get("bad")) or len(steps) != len(i["ops"])
@@ -287,6 +295,21 @@ def _enc_tcreal(i, o):
     return Rec(trc_ops=L(ops), trc_obs=L(obs), trc_bad=B(bad))
 
 
+def _enc_reg(i, o):
+    rounds = o.get("rounds") or []
+    bad = bool(o.get("bad")) or len(rounds) != len(i["rounds"] or [])
+    out = []
+    for snap, rd in zip(i["rounds"] or [], rounds):
+        pairs = lambda xs: L([T(S(a), S(b)) for a, b in xs or []])
+        out.append(Rec(rr_snap=L([T(S(e["name"]), ("(Some %s)" % S(e["value"])) if e["kind"] == "ok" else "None") for e in snap or []]),
+                       rr_panic=B(rd["panic"]),
+                       rr_create=pairs(rd["got"]["create"]), rr_update=pairs(rd["got"]["update"]),
+                       rr_delete=L([S(x) for x in rd["got"]["delete"] or []]),
+                       rr_tcreate=pairs(rd["twin"]["create"]), rr_tupdate=pairs(rd["twin"]["update"]),
+                       rr_tdelete=L([S(x) for x in rd["twin"]["delete"] or []])))
+    return Rec(rg_rounds=L(out), rg_bad=B(bad))
+
+
 def encode(c):
     i, o, g = c["in"], c["obs"], c["grp"]
     if g == "rlf":
@@ -305,6 +328,8 @@ def encode(c):
         return _enc_restart(i, o)
     if g == "tcreal":
         return _enc_tcreal(i, o)
+    if g == "reg":
+        return _enc_reg(i, o)
     raise ValueError(g)
 
 
